@@ -89,6 +89,11 @@ func (c *Chain) Distribution() params.Distribution {
 	for i := 0; i < c.NDist; i++ {
 		d.Addresses = append(d.Addresses, c.Keys[i].Addr.String())
 	}
+	// the real node validates its distribution at start-up, which also fills the decoded-address
+	// cache; without this the first concurrent readers would race on the lazy initialisation
+	if err := d.Validate(); err != nil {
+		panic(err)
+	}
 	return d
 }
 
